@@ -699,7 +699,7 @@ pub fn run_c17(ctx: &Ctx, rep: &mut Report) {
             |ctx, s: &String, acc| check_total(ctx, s, acc, true),
         );
     }
-    let n = ctx.cases(200_000, 5_000_000);
+    let n = ctx.cases(300_000, 5_000_000);
     run_prop(
         ctx,
         rep,
@@ -758,7 +758,7 @@ pub fn run_c18(ctx: &Ctx, rep: &mut Report) {
         directed,
         check_faults,
     );
-    let n = ctx.cases(2_000, 60_000);
+    let n = ctx.cases(4_000, 60_000);
     run_prop(
         ctx,
         rep,
